@@ -258,6 +258,24 @@ func runC12(p *an.Prog, r *an.Run, tier string) {
 				continue
 			}
 			v := underlyingConcrete(target)
+			if fn.Parent() != nil && fn.Parent().Name() == "loopItem" {
+				// loopItem decodes every record into its caller's single target: it must reset it first
+				okReset := false
+				for _, cc := range an.Calls(fn, false) {
+					if an.IsMethod(an.CallObj(cc), "reflect", "Value", "Set") && an.Dominates(cc.(ssa.Instruction), c.(ssa.Instruction)) {
+						if len(cc.Common().Args) == 2 {
+							if zc, ok := cc.Common().Args[1].(*ssa.Call); ok && an.IsFunc(an.CallObj(zc), "reflect", "Zero") {
+								okReset = true
+							}
+						}
+					}
+				}
+				nDec++
+				if !okReset {
+					badDec = append(badDec, "loopItem decodes into a reused target at "+p.Pos(c.Pos())+" without resetting it to its zero value first: fields omitted by gob keep the previous record's value (e.g. a zero Credit reads as the previous balance's Credit in Stats)")
+				}
+				continue
+			}
 			root, path := an.RootPath(v)
 			// targets handed in by the caller are the caller's obligation (getItem, loopItem)
 			if _, isPrm := root.(*ssa.Parameter); isPrm {
